@@ -178,16 +178,19 @@ def run(ck):
     probs = agree("Encoding", w, r, True, allow_unmapped=(HH + "Encoding::Unknown",))
     ck.ob("C16-R3", "table:Encoding", not probs, er.loc, er, "; ".join(probs) or "writer %s ⊆ reader %s" % (sorted(w.values()), sorted(r)))
     cw = lib.single(prog, HH + "CacheControl::write")
-    lams = prog.lambdas_in(cw)
+    # the two tables of the writer: local lambdas, or file-local functions it calls
+    lams = [g_ for g_ in lib.region(prog, cw, within=lambda g_: g_.is_lambda or (g_.file == cw.file and not g_.cls), depth=1) if g_.id != cw.id]
     maps = [tables.switch_map(l) for l in lams]
     names = [m for m in maps if any(isinstance(v, str) and v for v in m.values())]
     preds = [p_ for p_ in (tables.enum_predicate(l) for l in lams if not any(isinstance(v, str) and v for v in tables.switch_map(l).values())) if p_]
     ck.require(names, "directive-name lambda not found in CacheControl::write")
     triv = timed = None
     for v in prog.vars:
-        if v["name"].endswith("TrivialDirectives") and "CacheControl::parseRaw" in (v.get("func") or ""):
+        # static locals of CacheControl::parseRaw, or file-scope tables of http_header.cc
+        mine = "CacheControl::parseRaw" in (v.get("func") or "") or (not v.get("func") and (v.get("file") or "").endswith("/common/http_header.cc"))
+        if v["name"].endswith("TrivialDirectives") and mine:
             triv = tables.static_table(v.get("init"))
-        if v["name"].endswith("TimedDirectives") and "CacheControl::parseRaw" in (v.get("func") or ""):
+        if v["name"].endswith("TimedDirectives") and mine:
             timed = tables.static_table(v.get("init"))
     ck.require(triv and timed, "TrivialDirectives / TimedDirectives tables not found")
     cr = lib.single(prog, HH + "CacheControl::parseRaw")
